@@ -19,7 +19,7 @@ WEIGHTS = [F(1, 4), F(1, 2), F(1), F(2), F(3)]
 class _Reg(DynTol):
     """input/target of width _d (0: 1-D tensors), optional sample weights."""
     family = "additive-adopting"
-    alias_on_merge = True        # merge_state adopts the source's tensors by reference (C11)
+    alias_on_merge = True        # adopts the first shard's shape: probed for tensor sharing (was D2)
     weighted = False
 
     def class_tol(self, cfg):
@@ -306,8 +306,6 @@ class PerplexityE(Entry):
         rows = [grid(rng, v, 4, -8, 8) for _ in range(n)]
         p = rng.choice([0, 0.3, 0.8])
         t = [ig if (ig is not None and rng.random() < p) else rng.choice([k for k in range(v)]) for _ in range(n)]
-        if ig and all(x == ig for x in t):           # `if ignore_index:` + torch.max(empty) would raise
-            t[rng.randrange(n)] = rng.choice([k for k in range(v) if k != ig])
         s = rng.choice([k for k in range(1, n + 1) if n % k == 0])
         return {"rows": rows, "t": t, "S": s}
 
